@@ -1160,6 +1160,72 @@ theorem C09_emdpath_parent_new (over : Bool) (opt : TreeOpt) (hopt : opt ≠ .be
       bind, Except.bind, pure, Except.pure, Bool.not_true, Bool.false_and, Bool.false_eq_true, if_false, Option.isNone_some,
       Option.isNone_none, Bool.and_false, Bool.and_true, beq_self_eq_true, if_true]
 
+/-- C09, a node the file LACKS, saved with `tree=None` under the emdpath of its PARENT (`save(path, node, mode, tree=None,
+    emdpath='root/a')` for the runtime node a/m, a being in the file and m not): the node itself is not written; its
+    children — and only they — are merged into the PARENT's children by the name-based union rule (this is where the
+    emdpath form differs on purpose from the form without emdpath, `C09_target_new_below`, which only adds). -/
+theorem C09_emdpath_parent_new_below (over : Bool) (f : Obj) (F Rt P D : Tree)
+    (body' : List (String × Obj)) (q : List String) (m : String)
+    (hF : F.rootedWF CT DT = true) (hR : Rt.rootedWF CT DT = true) (hname : Rt.name = F.name)
+    (hf : alookup F.name f.kids = some (encode F)) (hroot : (rootGroups f).contains F.name = true)
+    (hmdname : "metadatabundle" ∉ names F.kids)
+    (hmd : mdBody over F.info.body (mdEntries Rt.info) = .ok body')
+    (hP : F.at q = some P) (hD : Rt.at (q ++ [m]) = some D)
+    (hnew : m ∉ names P.kids) (hbody : m ∉ akeys P.info.body)
+    (hbody' : q = [] → m ∉ akeys body')
+    (hcompat : ∀ P1, (withBody F body').at q = some P1 →
+      compatKids over P1.info P1.kids (akeys P1.info.body ++ names P1.kids ++ names D.kids) D.kids = true) :
+    ∃ P1 P', (withBody F body').at q = some P1 ∧ P1.kids = P.kids ∧ P'.wf CT DT = true ∧ P'.info = P1.info ∧
+      appendInto DT f Rt (q ++ [m]) over .below (some (joinPath (F.name :: q)))
+        = .ok (f.setKids (areplace F.name (encode ((withBody F body').replaceAt q P')) f.kids)) ∧
+      (∀ n r, cK P'.kids n r = combine over (cK P.kids n r) (cK D.kids n r)) ∧
+      ((withBody F body').replaceAt q P').wf CT DT = true := by
+  simp only [Tree.rootedWF, Bool.and_eq_true, beq_iff_eq] at hF hR
+  obtain ⟨hF1w, hrm⟩ := rootMd_encode over F Rt.info body' hF.1.1 hmdname hmd
+  have hP1 : ∃ P1, (withBody F body').at q = some P1 ∧ P1.kids = P.kids ∧ m ∉ names P1.kids ∧ m ∉ akeys P1.info.body := by
+    cases q with
+    | nil =>
+      cases F with
+      | mk i k =>
+        simp only [Tree.at, Option.some.injEq] at hP; subst hP
+        exact ⟨_, rfl, rfl, hnew, hbody' rfl⟩
+    | cons n p => exact ⟨P, by rw [withBody_at]; exact hP, rfl, hnew, hbody⟩
+  obtain ⟨P1, hP1, hkids1, hnew1, hbody1⟩ := hP1
+  have hc := hcompat P1 hP1
+  obtain ⟨hPw, hPd⟩ := wf_at q (withBody F body') P1 hF1w hP1
+  obtain ⟨hDw, _⟩ := wf_at (q ++ [m]) Rt D hR.1.1 hD
+  have hval0 := validate_inside (ct := CT) (dt := DT) q F P hF.1.1 hP
+  have hval := validate_beyond (ct := CT) (dt := DT) q (withBody F body') P1 m hF1w hP1 (alookup_encode_none P1 m hbody1 hnew1)
+  have hparse := parse_path F.name q (by
+    intro n hn
+    cases hn with
+    | head => exact infoWF_validName (Tree.wf_info hF.1.1)
+    | tail _ hn' => exact path_names_valid q F P hF.1.1 hP n hn')
+  have hempty : (q ++ [m]).isEmpty = false := by cases q <;> rfl
+  cases P1 with
+  | mk si sk =>
+  simp only [Tree.info_mk, Tree.kids_mk] at hc hkids1
+  obtain ⟨sk', hwf', heq', _, _, hspec'⟩ :=
+    appendKids_spec (ct := CT) (dt := DT) over D.kids si sk (taggedKeys (encode (.mk si sk)))
+      (akeys si.body ++ names sk ++ names D.kids) (akeys D.info.body) hPw (Tree.wf_kids hDw) hc
+      (fun m hm => by
+        simp only [List.mem_append]
+        cases hm with
+        | inl h => exact Or.inl (Or.inl h)
+        | inr h => exact Or.inl (Or.inr h))
+      (fun m hm => by simp only [List.mem_append]; exact Or.inr hm)
+      (fun d' hd' => by
+        simp only [encode]
+        exact taggedKeys_contains _ _ _ _ (compatKids_not_body over si sk _ D.kids hc d' hd'))
+  have hzip := atPath_encode (ct := CT) (dt := DT) (fun g => appendBranch DT over g D) q (withBody F body')
+    (.mk si sk) (.mk si sk') hF1w hP1 (by simp only [appendBranch, appendNode]; exact heq') rfl
+  refine ⟨.mk si sk, .mk si sk', hP1, hkids1, hwf', rfl, ?_, ?_, ?_⟩
+  · simp only [appendInto, appendCore, hname, hroot, hD, hf, hrm, hparse, hval0, hval, hempty,
+      bind, Except.bind, pure, Except.pure, Bool.not_true, Bool.false_and, Bool.false_eq_true, if_false, Option.isNone_some,
+      Option.isNone_none, Bool.and_false, Bool.and_true, beq_self_eq_true, if_true, hzip]
+  · subst hkids1; exact hspec'
+  · exact replaceAt_wf q (withBody F body') (.mk si sk) (.mk si sk') hF1w hP1 hwf' rfl (fun h => hPd h)
+
 theorem isPrefixOf'_none_of_not_prefix : ∀ (p t : List String), ¬ p <+: t → isPrefixOf' p t = none
   | [], t, h => absurd (List.nil_prefix) h
   | _ :: _, [], _ => rfl
@@ -1214,6 +1280,51 @@ theorem C09_emdpath_unrelated_refused (over : Bool) (opt : TreeOpt) (f : Obj) (F
   simp only [appendInto, appendCore, hname, hroot, hD, hf, hrm, hparse, hval0, hvalS, hneb, hb, hat, hkeys, hpre,
     List.isEmpty_cons, bind, Except.bind, pure, Except.pure, Bool.not_true, Bool.false_and, Bool.false_eq_true, if_false,
     Option.isNone_some, Bool.and_false, throw, throwThe, MonadExceptOf.throw]
+
+/-- C09, an emdpath whose target merely HAS A CHILD NAMED LIKE the saved node without being its parent (`emdpath='r/x'`
+    for the runtime node a/b while the file holds both a/b and x/b): the dispatch finds the node's name among the target's
+    children, takes that for "the node is already there", and appends IN PLACE at the node's own treepath — exactly the
+    append without emdpath, for every tree option and both modes; the namesake x/b is not touched. -/
+theorem C09_emdpath_namesake (over : Bool) (opt : TreeOpt) (f : Obj) (F Rt S T D : Tree) (body' : List (String × Obj))
+    (n0 : String) (p0 : List String) (tp : List String) (b : String)
+    (hF : F.rootedWF CT DT = true) (hR : Rt.rootedWF CT DT = true) (hname : Rt.name = F.name)
+    (hf : alookup F.name f.kids = some (encode F)) (hroot : (rootGroups f).contains F.name = true)
+    (hmdname : "metadatabundle" ∉ names F.kids)
+    (hmd : mdBody over F.info.body (mdEntries Rt.info) = .ok body')
+    (hS : F.at (n0 :: p0) = some S) (hT : F.at tp = some T) (hD : Rt.at (n0 :: p0) = some D)
+    (hne : (n0 :: p0) ≠ tp) (hb : (n0 :: p0).getLast? = some b) (hkid : b ∈ names T.kids) :
+    appendInto DT f Rt (n0 :: p0) over opt (some (joinPath (F.name :: tp)))
+      = appendInto DT f Rt (n0 :: p0) over opt none := by
+  simp only [Tree.rootedWF, Bool.and_eq_true, beq_iff_eq] at hF hR
+  obtain ⟨hF1w, hrm⟩ := rootMd_encode over F Rt.info body' hF.1.1 hmdname hmd
+  have hS1 : (withBody F body').at (n0 :: p0) = some S := by rw [withBody_at]; exact hS
+  obtain ⟨T1, hT1, hT1k⟩ := withBody_at_kids F body' tp T hT
+  have hval0 := validate_inside (ct := CT) (dt := DT) tp F T hF.1.1 hT
+  have hval := validate_inside (ct := CT) (dt := DT) (n0 :: p0) (withBody F body') S hF1w hS1
+  have hparse := parse_path F.name tp (by
+    intro n hn
+    cases hn with
+    | head => exact infoWF_validName (Tree.wf_info hF.1.1)
+    | tail _ hn' => exact path_names_valid tp F T hF.1.1 hT n hn')
+  have hneb : ((n0 :: p0) == tp) = false := beq_false_of_ne hne
+  have hat := C01_node_at tp (withBody F body') T1 hF1w hT1
+  have hkeys : (akeys (encode T1).kids).contains b = true := by
+    cases T1 with
+    | mk i k =>
+      simp only [Tree.kids_mk] at hT1k
+      simp only [encode, Obj.kids, akeys_append, akeys_encodeKids, List.contains_eq_mem, List.mem_append, decide_eq_true_eq]
+      right
+      rw [hT1k]
+      exact hkid
+  have e1 : (TreeOpt.below == TreeOpt.yes) = false := by decide
+  have e2 : (TreeOpt.below == TreeOpt.no) = false := by decide
+  have e3 : (TreeOpt.below == TreeOpt.below) = true := by decide
+  cases opt <;>
+  simp only [e1, e2, e3, appendInto, appendCore, hname, hroot, hD, hf, hrm, hparse, hval0, hval, hneb, hb, hat, hkeys,
+    List.isEmpty_cons, bind, Except.bind, pure,
+    Except.pure, Bool.not_true, Bool.false_and, Bool.false_eq_true, if_false, Option.isNone_some, Option.isNone_none,
+    Bool.and_false, Bool.and_true, beq_self_eq_true, if_true, overThenAppend, Bool.or_self, Bool.or_true, Bool.true_or,
+    Bool.or_false, Bool.false_or, reduceCtorEq, decide_false, decide_true] <;> rfl
 
 /-- what "exactly there, and nothing else" means for all three targeted theorems: after replacing the subtree at `p`,
     the new subtree is what is read at `p` (and below), and the content of every node whose path does not pass through
@@ -1446,5 +1557,38 @@ example : (exF.at ["a"]).isSome = true ∧ (exR.at ["a"]).isSome = true ∧ (exR
     (match exF.at ["a"] with
      | some P => !(names P.kids).contains "new" && !(akeys P.info.body).contains "new"
      | none => false) = true := by decide
+
+-- non-vacuity of `C09_emdpath_parent_new_below` on the same pair: the runtime node `a/new` (not in the file) saved with
+-- tree=None under the emdpath of its parent `r/a`; the name-space condition holds for the parent and the children of `new`,
+-- and the model run puts `newdeep` directly below `a`, does not write `new`, and keeps `deepF`
+example : ∀ over : Bool, (match mdBody over exF.info.body (mdEntries exR.info), exR.at (["a"] ++ ["new"]) with
+    | .ok body', some D => (match (withBody exF body').at ["a"] with
+        | some P1 => compatKids over P1.info P1.kids (akeys P1.info.body ++ names P1.kids ++ names D.kids) D.kids
+        | none => false)
+    | _, _ => false) = true := by decide
+example : (match appendInto DT (fileOf {} "u" exF) exR (["a"] ++ ["new"]) false .below (some (joinPath ("r" :: ["a"]))) with
+    | .ok f => (f.at ["r", "a", "newdeep"]).isSome && (f.at ["r", "a", "new"]).isNone && (f.at ["r", "a", "deepF"]).isSome &&
+               (f.at ["r", "a"]).bind Obj.pyClass == some "Array"
+    | .error _ => false) = true := by decide
+
+-- non-vacuity of `C09_emdpath_namesake`: file r/{a/b, x/b}, runtime r/a/b with a new child: saving a/b under the emdpath of x
+-- (which has a child called b without being a/b's parent) appends at a/b; x/b is not touched
+def exNF : Tree :=
+  .mk { name := "r", cls := "Root", gtype := "root", body := [] }
+    [ .mk { name := "a", cls := "Node", gtype := "node", body := [] }
+        [ .mk { name := "b", cls := "Node", gtype := "node", body := [] } [] ],
+      .mk { name := "x", cls := "Node", gtype := "node", body := [] }
+        [ .mk { name := "b", cls := "Node", gtype := "node", body := [] } [] ] ]
+def exNR : Tree :=
+  .mk { name := "r", cls := "Root", gtype := "root", body := [] }
+    [ .mk { name := "a", cls := "Node", gtype := "node", body := [] }
+        [ .mk { name := "b", cls := "Node", gtype := "node", body := [] }
+            [ .mk { name := "fresh", cls := "Node", gtype := "node", body := [] } [] ] ] ]
+example : exNF.rootedWF CT DT = true ∧ exNR.rootedWF CT DT = true ∧ (exNF.at ["a", "b"]).isSome = true ∧
+    (exNR.at ["a", "b"]).isSome = true ∧ ["a", "b"] ≠ ["x"] ∧ ["a", "b"].getLast? = some "b" ∧
+    (match exNF.at ["x"] with | some T => (names T.kids).contains "b" | none => false) = true := by decide
+example : (match appendInto DT (fileOf {} "u" exNF) exNR ["a", "b"] false .yes (some (joinPath ("r" :: ["x"]))) with
+    | .ok f => (f.at ["r", "a", "b", "fresh"]).isSome && (f.at ["r", "x", "b", "fresh"]).isNone && (f.at ["r", "x", "b"]).isSome
+    | .error _ => false) = true := by decide
 
 end EmdProps
